@@ -290,6 +290,8 @@ struct file_info {
 	char		 name_continues; /* Non-zero if name continues */
 	struct archive_string symlink;
 	char		 symlink_continues; /* Non-zero if link continues */
+	char		 symlink_separator; /* Non-zero if the next SL entry
+					     * starts a new component */
 	/* Set 1 if this file compressed by paged zlib(zisofs) */
 	int		 pz;
 	int		 pz_log2_bs; /* Log2 of block size */
@@ -2671,7 +2673,10 @@ parse_rockridge_SL1(struct file_info *file, const unsigned char *data,
 
 	if (!file->symlink_continues || file->symlink.length < 1)
 		archive_string_empty(&file->symlink);
+	else if (file->symlink_separator)
+		separator = "/";
 	file->symlink_continues = 0;
+	file->symlink_separator = 0;
 
 	/*
 	 * Defined flag values:
@@ -2747,6 +2752,9 @@ parse_rockridge_SL1(struct file_info *file, const unsigned char *data,
 		}
 		data += nlen;
 		data_length -= nlen;
+		/* A component that is complete is followed by a separator,
+		 * also when the next one is in another SL entry. */
+		file->symlink_separator = (separator[0] == '/');
 	}
 }
 
